@@ -22,11 +22,12 @@ VARIABLES tr, i,
           cancelT, timeoutSeen, retSeen, ret,
           mS, mF, mD, mSetup, mSetupRes, labelsBad,
           stageCur, stageOpen, setupCleanupSeen, rvOK,
+          skipped,          \* rate evaluations that were not passed to the pool so far
           lmax,             \* contention ("light") runs: highest id of the contiguous prefix 1..lmax seen so far
           why
 vars == <<tr, i, setupSeen, ids, liveIds, liveH, endedIds, cleaned, succT, failT, sumTicks, lateSum, dropSum,
           stopSeen, limitSeen, evals, firstEvalT, pendingV, progS, progF, cancelT, timeoutSeen, retSeen, ret,
-          mS, mF, mD, mSetup, mSetupRes, labelsBad, stageCur, stageOpen, setupCleanupSeen, rvOK, lmax, why>>
+          mS, mF, mD, mSetup, mSetupRes, labelsBad, stageCur, stageOpen, setupCleanupSeen, rvOK, lmax, skipped, why>>
 
 Cfg == T[tr].cfg
 Min(a, b) == IF a < b THEN a ELSE b
@@ -49,7 +50,7 @@ Init == /\ tr \in 1..Len(T) /\ i = 0
         /\ progS = 0 /\ progF = 0 /\ cancelT = -1 /\ timeoutSeen = FALSE /\ retSeen = FALSE
         /\ ret = [s |-> 0, f |-> 0, d |-> 0, t |-> 0]
         /\ mS = 0 /\ mF = 0 /\ mD = 0 /\ mSetup = 0 /\ mSetupRes = "" /\ labelsBad = FALSE
-        /\ stageCur = 0 /\ stageOpen = FALSE /\ setupCleanupSeen = FALSE /\ rvOK = FALSE /\ lmax = 0
+        /\ stageCur = 0 /\ stageOpen = FALSE /\ setupCleanupSeen = FALSE /\ rvOK = FALSE /\ lmax = 0 /\ skipped = 0
         /\ why = IF T[tr].err = "" THEN {} ELSE {F("MACHINERY", T[tr].err)}
 
 Unch(vs) == UNCHANGED vs
@@ -59,7 +60,7 @@ Setup(e) ==
     /\ why' = why \cup Fails(<< <<setupSeen = -1, "C06", "setup-ran-twice">>,
                                  <<ids = {}, "C06", "setup-after-iteration">> >>)
     /\ setupSeen' = e.a
-    /\ Unch(<<lmax, ids, liveIds, liveH, endedIds, cleaned, succT, failT, sumTicks, lateSum, dropSum, stopSeen, limitSeen, evals,
+    /\ Unch(<<lmax, skipped, ids, liveIds, liveH, endedIds, cleaned, succT, failT, sumTicks, lateSum, dropSum, stopSeen, limitSeen, evals,
               firstEvalT, pendingV, progS, progF, cancelT, timeoutSeen, retSeen, ret, mS, mF, mD, mSetup, mSetupRes,
               labelsBad, stageCur, stageOpen, setupCleanupSeen, rvOK>>)
 
@@ -71,30 +72,35 @@ Eval(e) ==
     IN /\ why' = why \cup Fails(<< <<cadenceOK, "C09", "more-evaluations-than-ticks">>,
                                    <<e.a >= 0 \/ TRUE, "C09", "x">> >>)
        /\ evals' = evals + 1 /\ firstEvalT' = t0 /\ pendingV' = e.a
+       /\ skipped' = IF pendingV # -1 THEN skipped + 1 ELSE skipped
        /\ Unch(<<lmax, setupSeen, ids, liveIds, liveH, endedIds, cleaned, succT, failT, sumTicks, lateSum, dropSum, stopSeen,
                  limitSeen, progS, progF, cancelT, timeoutSeen, retSeen, ret, mS, mF, mD, mSetup, mSetupRes, labelsBad,
                  stageCur, stageOpen, setupCleanupSeen, rvOK>>)
 
 Tick(e) ==
     /\ why' = why \cup Fails(<< <<Cfg.mode = "file" \/ Cfg.rate_mode = FALSE \/ Cfg.pool_only \/ e.a = pendingV, "C09", "published-value-differs-from-evaluation">>,
-                                 <<e.a >= 0, "C09", "negative-request">> >>)
+                                 <<e.a >= 0, "C09", "negative-request">>,
+                                 \* a published tick proves the context was not done before: every earlier evaluation had to be published
+                                 <<Cfg.pool_only \/ Cfg.mode = "file" \/ skipped = 0, "C09", "evaluation-not-passed-to-the-pool">>,
+                                 \* cancel() had returned 100 ms before this publication: its context check cannot have passed
+                                 <<cancelT < 0 \/ Cfg.pool_only \/ e.c <= cancelT + 100000, "C05", "request-published-after-cancellation">> >>)
     /\ IF stopSeen THEN lateSum' = lateSum + e.a /\ Unch(sumTicks)
                    ELSE sumTicks' = sumTicks + e.a /\ Unch(lateSum)
     /\ pendingV' = -1
-    /\ Unch(<<lmax, setupSeen, ids, liveIds, liveH, endedIds, cleaned, succT, failT, dropSum, stopSeen, limitSeen, evals,
+    /\ Unch(<<lmax, skipped, setupSeen, ids, liveIds, liveH, endedIds, cleaned, succT, failT, dropSum, stopSeen, limitSeen, evals,
               firstEvalT, progS, progF, cancelT, timeoutSeen, retSeen, ret, mS, mF, mD, mSetup, mSetupRes, labelsBad,
               stageCur, stageOpen, setupCleanupSeen, rvOK>>)
 
 StopFlag(e) ==
     /\ stopSeen' = TRUE /\ why' = why
-    /\ Unch(<<lmax, setupSeen, ids, liveIds, liveH, endedIds, cleaned, succT, failT, sumTicks, lateSum, dropSum, limitSeen, evals,
+    /\ Unch(<<lmax, skipped, setupSeen, ids, liveIds, liveH, endedIds, cleaned, succT, failT, sumTicks, lateSum, dropSum, limitSeen, evals,
               firstEvalT, pendingV, progS, progF, cancelT, timeoutSeen, retSeen, ret, mS, mF, mD, mSetup, mSetupRes,
               labelsBad, stageCur, stageOpen, setupCleanupSeen, rvOK>>)
 
 Limit(e) ==
     /\ limitSeen' = TRUE
     /\ why' = why \cup Fails(<< <<Cfg.maxiter > 0, "C03", "limit-path-without-limit">> >>)
-    /\ Unch(<<lmax, setupSeen, ids, liveIds, liveH, endedIds, cleaned, succT, failT, sumTicks, lateSum, dropSum, stopSeen, evals,
+    /\ Unch(<<lmax, skipped, setupSeen, ids, liveIds, liveH, endedIds, cleaned, succT, failT, sumTicks, lateSum, dropSum, stopSeen, evals,
               firstEvalT, pendingV, progS, progF, cancelT, timeoutSeen, retSeen, ret, mS, mF, mD, mSetup, mSetupRes,
               labelsBad, stageCur, stageOpen, setupCleanupSeen, rvOK>>)
 
@@ -108,7 +114,7 @@ DropEv(e) ==
             <<Cfg.mode = "file" \/ started + dropSum + e.a <= sumTicks + lateSum, "C02", "more-started-plus-dropped-than-requested">>,
             <<~(e.b = 1 /\ limitAlone), "C02", "limit-discard-reported-as-dropped">> >>)
        /\ dropSum' = dropSum + e.a
-       /\ Unch(<<lmax, setupSeen, ids, liveIds, liveH, endedIds, cleaned, succT, failT, sumTicks, lateSum, stopSeen, limitSeen, evals,
+       /\ Unch(<<lmax, skipped, setupSeen, ids, liveIds, liveH, endedIds, cleaned, succT, failT, sumTicks, lateSum, stopSeen, limitSeen, evals,
                  firstEvalT, pendingV, progS, progF, cancelT, timeoutSeen, retSeen, ret, mS, mF, mD, mSetup, mSetupRes,
                  labelsBad, stageCur, stageOpen, setupCleanupSeen, rvOK>>)
 
@@ -125,9 +131,9 @@ Start(e) ==
           <<Cfg.rate_mode = FALSE \/ Cfg.mode = "file" \/ Cardinality(ids) + 1 + dropSum <= sumTicks + lateSum, "C02", "started-more-than-requested">>,
           <<Cfg.light \/ ~setupCleanupSeen, "C06", "iteration-after-setup-cleanups">> >>)
     /\ ids' = ids \cup {e.a}
-    /\ IF Cfg.light THEN Unch(<<lmax, liveIds, liveH>>)      \* contention runs log the ids only, after the run
+    /\ IF Cfg.light THEN Unch(<<lmax, skipped, liveIds, liveH>>)      \* contention runs log the ids only, after the run
        ELSE liveIds' = liveIds \cup {e.a} /\ liveH' = liveH \cup {e.b}
-    /\ Unch(<<lmax, setupSeen, endedIds, cleaned, succT, failT, sumTicks, lateSum, dropSum, stopSeen, limitSeen, evals, firstEvalT,
+    /\ Unch(<<lmax, skipped, setupSeen, endedIds, cleaned, succT, failT, sumTicks, lateSum, dropSum, stopSeen, limitSeen, evals, firstEvalT,
               pendingV, progS, progF, cancelT, timeoutSeen, retSeen, ret, mS, mF, mD, mSetup, mSetupRes, labelsBad,
               stageCur, stageOpen, setupCleanupSeen, rvOK>>)
 
@@ -140,7 +146,7 @@ IdRange(e) ==
           <<e.a = lmax + 1 /\ e.b >= e.a, "C03", "iteration-ids-not-unique-and-gapless">>,
           <<Cfg.maxiter = 0 \/ e.b <= Cfg.maxiter, "C03", "more-invocations-than-max-iterations">> >>)
     /\ lmax' = IF e.b > lmax THEN e.b ELSE lmax
-    /\ Unch(<<setupSeen, ids, liveIds, liveH, endedIds, cleaned, succT, failT, sumTicks, lateSum, dropSum, stopSeen, limitSeen,
+    /\ Unch(<<skipped, setupSeen, ids, liveIds, liveH, endedIds, cleaned, succT, failT, sumTicks, lateSum, dropSum, stopSeen, limitSeen,
               evals, firstEvalT, pendingV, progS, progF, cancelT, timeoutSeen, retSeen, ret, mS, mF, mD, mSetup, mSetupRes,
               labelsBad, stageCur, stageOpen, setupCleanupSeen, rvOK>>)
 
@@ -148,7 +154,7 @@ End(e) ==
     /\ why' = why \cup Fails(<< <<e.a \in liveIds /\ e.b \in liveH, "C06", "end-without-start">> >>)
     /\ liveIds' = liveIds \ {e.a} /\ liveH' = liveH \ {e.b} /\ endedIds' = endedIds \cup {e.a}
     /\ IF e.d = 1 THEN failT' = failT + 1 /\ Unch(succT) ELSE succT' = succT + 1 /\ Unch(failT)
-    /\ Unch(<<lmax, setupSeen, ids, cleaned, sumTicks, lateSum, dropSum, stopSeen, limitSeen, evals, firstEvalT, pendingV, progS,
+    /\ Unch(<<lmax, skipped, setupSeen, ids, cleaned, sumTicks, lateSum, dropSum, stopSeen, limitSeen, evals, firstEvalT, pendingV, progS,
               progF, cancelT, timeoutSeen, retSeen, ret, mS, mF, mD, mSetup, mSetupRes, labelsBad, stageCur, stageOpen,
               setupCleanupSeen, rvOK>>)
 
@@ -159,7 +165,7 @@ Cleanup(e) ==
           <<e.a \notin cleaned, "C06", "cleanup-ran-twice">>,
           <<e.b \notin liveH, "C06", "cleanup-after-next-iteration-started-on-same-worker">> >>)
     /\ cleaned' = cleaned \cup {e.a}
-    /\ Unch(<<lmax, setupSeen, ids, liveIds, liveH, endedIds, succT, failT, sumTicks, lateSum, dropSum, stopSeen, limitSeen, evals,
+    /\ Unch(<<lmax, skipped, setupSeen, ids, liveIds, liveH, endedIds, succT, failT, sumTicks, lateSum, dropSum, stopSeen, limitSeen, evals,
               firstEvalT, pendingV, progS, progF, cancelT, timeoutSeen, retSeen, ret, mS, mF, mD, mSetup, mSetupRes,
               labelsBad, stageCur, stageOpen, setupCleanupSeen, rvOK>>)
 
@@ -169,7 +175,7 @@ SetupCleanup(e) ==
           <<Cfg.light \/ timeoutSeen \/ (liveIds = {} /\ e.a = 0), "C06", "setup-cleanup-while-iterations-in-flight">>,
           <<~retSeen, "C06", "setup-cleanup-after-return">> >>)
     /\ setupCleanupSeen' = TRUE
-    /\ Unch(<<lmax, setupSeen, ids, liveIds, liveH, endedIds, cleaned, succT, failT, sumTicks, lateSum, dropSum, stopSeen, limitSeen,
+    /\ Unch(<<lmax, skipped, setupSeen, ids, liveIds, liveH, endedIds, cleaned, succT, failT, sumTicks, lateSum, dropSum, stopSeen, limitSeen,
               evals, firstEvalT, pendingV, progS, progF, cancelT, timeoutSeen, retSeen, ret, mS, mF, mD, mSetup, mSetupRes,
               labelsBad, stageCur, stageOpen, rvOK>>)
 
@@ -179,19 +185,19 @@ Progress(e) ==
           <<e.a >= progS /\ e.b >= progF, "C01", "progress-counts-decreased">>,
           <<e.d <= dropSum, "C01", "progress-shows-more-dropped-than-reported">> >>)
     /\ progS' = e.a /\ progF' = e.b
-    /\ Unch(<<lmax, setupSeen, ids, liveIds, liveH, endedIds, cleaned, succT, failT, sumTicks, lateSum, dropSum, stopSeen, limitSeen,
+    /\ Unch(<<lmax, skipped, setupSeen, ids, liveIds, liveH, endedIds, cleaned, succT, failT, sumTicks, lateSum, dropSum, stopSeen, limitSeen,
               evals, firstEvalT, pendingV, cancelT, timeoutSeen, retSeen, ret, mS, mF, mD, mSetup, mSetupRes, labelsBad,
               stageCur, stageOpen, setupCleanupSeen, rvOK>>)
 
 Cancel(e) ==
     /\ cancelT' = e.c /\ why' = why
-    /\ Unch(<<lmax, setupSeen, ids, liveIds, liveH, endedIds, cleaned, succT, failT, sumTicks, lateSum, dropSum, stopSeen, limitSeen,
+    /\ Unch(<<lmax, skipped, setupSeen, ids, liveIds, liveH, endedIds, cleaned, succT, failT, sumTicks, lateSum, dropSum, stopSeen, limitSeen,
               evals, firstEvalT, pendingV, progS, progF, timeoutSeen, retSeen, ret, mS, mF, mD, mSetup, mSetupRes, labelsBad,
               stageCur, stageOpen, setupCleanupSeen, rvOK>>)
 
 TimeoutMsg(e) ==
     /\ timeoutSeen' = TRUE /\ why' = why
-    /\ Unch(<<lmax, setupSeen, ids, liveIds, liveH, endedIds, cleaned, succT, failT, sumTicks, lateSum, dropSum, stopSeen, limitSeen,
+    /\ Unch(<<lmax, skipped, setupSeen, ids, liveIds, liveH, endedIds, cleaned, succT, failT, sumTicks, lateSum, dropSum, stopSeen, limitSeen,
               evals, firstEvalT, pendingV, progS, progF, cancelT, retSeen, ret, mS, mF, mD, mSetup, mSetupRes, labelsBad,
               stageCur, stageOpen, setupCleanupSeen, rvOK>>)
 
@@ -199,13 +205,21 @@ TimeoutMsg(e) ==
 NoReturn(e) ==
     /\ why' = why \cup {F("C05", "run-did-not-return")}
     /\ timeoutSeen' = TRUE
-    /\ Unch(<<lmax, setupSeen, ids, liveIds, liveH, endedIds, cleaned, succT, failT, sumTicks, lateSum, dropSum, stopSeen, limitSeen,
+    /\ Unch(<<lmax, skipped, setupSeen, ids, liveIds, liveH, endedIds, cleaned, succT, failT, sumTicks, lateSum, dropSum, stopSeen, limitSeen,
               evals, firstEvalT, pendingV, progS, progF, cancelT, retSeen, ret, mS, mF, mD, mSetup, mSetupRes, labelsBad,
               stageCur, stageOpen, setupCleanupSeen, rvOK>>)
 
+\* cooperative pool schedules: nothing can move except the canceller; a = workers parked in Cond.Wait
+Idle(e) ==
+    /\ why' = why \cup Fails(<<
+          <<limitSeen \/ stopSeen \/ e.a = 0 \/ sumTicks + lateSum = Cardinality(ids) + dropSum, "C04", "workers-idle-while-requests-pending">> >>)
+    /\ Unch(<<lmax, skipped, setupSeen, ids, liveIds, liveH, endedIds, cleaned, succT, failT, sumTicks, lateSum, dropSum, stopSeen, limitSeen,
+              evals, firstEvalT, pendingV, progS, progF, cancelT, timeoutSeen, retSeen, ret, mS, mF, mD, mSetup, mSetupRes,
+              labelsBad, stageCur, stageOpen, setupCleanupSeen, rvOK>>)
+
 Rendezvous(e) ==
     /\ rvOK' = (e.a = 1) /\ why' = why
-    /\ Unch(<<lmax, setupSeen, ids, liveIds, liveH, endedIds, cleaned, succT, failT, sumTicks, lateSum, dropSum, stopSeen, limitSeen,
+    /\ Unch(<<lmax, skipped, setupSeen, ids, liveIds, liveH, endedIds, cleaned, succT, failT, sumTicks, lateSum, dropSum, stopSeen, limitSeen,
               evals, firstEvalT, pendingV, progS, progF, cancelT, timeoutSeen, retSeen, ret, mS, mF, mD, mSetup, mSetupRes,
               labelsBad, stageCur, stageOpen, setupCleanupSeen>>)
 
@@ -232,7 +246,7 @@ Return(e) ==
             <<~Cfg.rendezvous \/ rvOK, "C04", "not-all-workers-could-run-at-once">>,
             <<e.c <= Deadline + Cfg.wait_us + 3 * SLACK, "C05", "returned-too-late">> >>)
        /\ retSeen' = TRUE /\ ret' = [s |-> e.a, f |-> e.b, d |-> e.d, t |-> e.c]
-       /\ Unch(<<lmax, setupSeen, ids, liveIds, liveH, endedIds, cleaned, succT, failT, sumTicks, lateSum, dropSum, stopSeen, limitSeen,
+       /\ Unch(<<lmax, skipped, setupSeen, ids, liveIds, liveH, endedIds, cleaned, succT, failT, sumTicks, lateSum, dropSum, stopSeen, limitSeen,
                  evals, firstEvalT, pendingV, progS, progF, cancelT, timeoutSeen, mS, mF, mD, mSetup, mSetupRes, labelsBad,
                  stageCur, stageOpen, setupCleanupSeen, rvOK>>)
 
@@ -240,13 +254,13 @@ Return(e) ==
 \* d = 1 when the harness found the label set wrong (keys missing / static label not paired with its value)
 Metric(e) ==
     /\ why' = why \cup Fails(<< <<e.d = 0, "C16", "series-label-set-wrong">> >>)
-    /\ CASE e.b = 1 -> mSetup' = mSetup + e.a /\ mSetupRes' = e.s /\ Unch(<<lmax, mS, mF, mD>>)
-         [] e.c = 0 -> mS' = mS + e.a /\ Unch(<<lmax, mF, mD, mSetup, mSetupRes>>)
-         [] e.c = 1 -> mF' = mF + e.a /\ Unch(<<lmax, mS, mD, mSetup, mSetupRes>>)
-         [] e.c = 2 -> mD' = mD + e.a /\ Unch(<<lmax, mS, mF, mSetup, mSetupRes>>)
-         [] OTHER -> Unch(<<lmax, mS, mF, mD, mSetup, mSetupRes>>)
+    /\ CASE e.b = 1 -> mSetup' = mSetup + e.a /\ mSetupRes' = e.s /\ Unch(<<lmax, skipped, mS, mF, mD>>)
+         [] e.c = 0 -> mS' = mS + e.a /\ Unch(<<lmax, skipped, mF, mD, mSetup, mSetupRes>>)
+         [] e.c = 1 -> mF' = mF + e.a /\ Unch(<<lmax, skipped, mS, mD, mSetup, mSetupRes>>)
+         [] e.c = 2 -> mD' = mD + e.a /\ Unch(<<lmax, skipped, mS, mF, mSetup, mSetupRes>>)
+         [] OTHER -> Unch(<<lmax, skipped, mS, mF, mD, mSetup, mSetupRes>>)
     /\ labelsBad' = (labelsBad \/ e.d # 0)
-    /\ Unch(<<lmax, setupSeen, ids, liveIds, liveH, endedIds, cleaned, succT, failT, sumTicks, lateSum, dropSum, stopSeen, limitSeen,
+    /\ Unch(<<lmax, skipped, setupSeen, ids, liveIds, liveH, endedIds, cleaned, succT, failT, sumTicks, lateSum, dropSum, stopSeen, limitSeen,
               evals, firstEvalT, pendingV, progS, progF, cancelT, timeoutSeen, retSeen, ret, stageCur, stageOpen,
               setupCleanupSeen, rvOK>>)
 
@@ -254,7 +268,7 @@ Metric(e) ==
 Summary(e) ==
     /\ why' = why   \* compared with the result in After (the summary is printed when Do returns)
     /\ progS' = e.a /\ progF' = e.b
-    /\ Unch(<<lmax, setupSeen, ids, liveIds, liveH, endedIds, cleaned, succT, failT, sumTicks, lateSum, dropSum, stopSeen, limitSeen,
+    /\ Unch(<<lmax, skipped, setupSeen, ids, liveIds, liveH, endedIds, cleaned, succT, failT, sumTicks, lateSum, dropSum, stopSeen, limitSeen,
               evals, firstEvalT, pendingV, cancelT, timeoutSeen, retSeen, ret, mS, mF, mD, mSetup, mSetupRes, labelsBad,
               stageCur, stageOpen, setupCleanupSeen, rvOK>>)
 
@@ -272,7 +286,7 @@ After(e) ==
           <<mSetup = 1, "C16", "setup-metric-not-exactly-one-sample">>,
           <<(setupSeen = 1) = (mSetupRes = "success"), "C16", "setup-metric-labelled-with-wrong-outcome">>,
           <<progS = ret.s /\ progF = ret.f, "C19", "summary-counts-differ-from-result">> >>)
-    /\ Unch(<<lmax, setupSeen, ids, liveIds, liveH, endedIds, cleaned, succT, failT, sumTicks, lateSum, dropSum, stopSeen, limitSeen,
+    /\ Unch(<<lmax, skipped, setupSeen, ids, liveIds, liveH, endedIds, cleaned, succT, failT, sumTicks, lateSum, dropSum, stopSeen, limitSeen,
               evals, firstEvalT, pendingV, progS, progF, cancelT, timeoutSeen, retSeen, ret, mS, mF, mD, mSetup, mSetupRes,
               labelsBad, stageCur, stageOpen, setupCleanupSeen, rvOK>>)
 
@@ -284,12 +298,12 @@ Stage(e) ==
           <<e.s = e.b2, "C15", "stage-parameters-not-in-environment-while-triggering">> >>)
     /\ stageCur' = e.a /\ stageOpen' = (e.b = 1)
     /\ stopSeen' = IF e.b = 1 THEN FALSE ELSE stopSeen
-    /\ Unch(<<lmax, setupSeen, ids, liveIds, liveH, endedIds, cleaned, succT, failT, sumTicks, lateSum, dropSum, limitSeen, evals,
+    /\ Unch(<<lmax, skipped, setupSeen, ids, liveIds, liveH, endedIds, cleaned, succT, failT, sumTicks, lateSum, dropSum, limitSeen, evals,
               firstEvalT, pendingV, progS, progF, cancelT, timeoutSeen, retSeen, ret, mS, mF, mD, mSetup, mSetupRes,
               labelsBad, setupCleanupSeen, rvOK>>)
 
 Other(e) == why' = why /\
-    Unch(<<lmax, setupSeen, ids, liveIds, liveH, endedIds, cleaned, succT, failT, sumTicks, lateSum, dropSum, stopSeen, limitSeen,
+    Unch(<<lmax, skipped, setupSeen, ids, liveIds, liveH, endedIds, cleaned, succT, failT, sumTicks, lateSum, dropSum, stopSeen, limitSeen,
            evals, firstEvalT, pendingV, progS, progF, cancelT, timeoutSeen, retSeen, ret, mS, mF, mD, mSetup, mSetupRes,
            labelsBad, stageCur, stageOpen, setupCleanupSeen, rvOK>>)
 
@@ -312,6 +326,7 @@ Next == /\ i < Len(T[tr].ev)
              [] e.k = "timeoutmsg" -> TimeoutMsg(e)
              [] e.k = "noreturn" -> NoReturn(e)
              [] e.k = "rv" -> Rendezvous(e)
+             [] e.k = "idle" -> Idle(e)
              [] e.k = "ret" -> Return(e)
              [] e.k = "metric" -> Metric(e)
              [] e.k = "summary" -> Summary(e)
